@@ -37,6 +37,21 @@ def gen_pivot(kind=None):
     if kind == "axis": return [rng.choice([0.0, rng.uniform(-80, 80)]), 0.0, rng.uniform(-100, 100)]
     return [rng.uniform(-80, 80), rng.uniform(-80, 80), rng.uniform(-120, 120)]
 
+# deterministic corner cases that run first in every mode: angles that make atan2 return exactly 0 / +-pi / pi/2, turning angles
+# of exactly +-pi, phi0 exactly 0, moves to the same pivot, pivots level with the circle centre
+CORNERS = []
+for _k in (1.3, -1.3, 0.4, -0.4):
+    for _dr in (0.5, -0.5, 0.0):
+        for _p1 in ([0.0, 0.0, 0.0], [5.0, 0.0, 1.0], [-500.0, 0.0, 2.0], [500.0, 0.0, 0.0], [0.0, 5.0, 0.0], [3.0, -4.0, 5.0]):
+            CORNERS.append(([_dr, 0.0, _k, 0.3, 0.7], [0.0, 0.0, 0.0], _p1))
+        CORNERS.append(([_dr, math.pi / 2, _k, -0.2, -1.1], [0.0, 0.0, 0.0], [7.0, -(ALPHA / _k) - _dr, 0.0]))
+        CORNERS.append(([_dr, math.pi, _k, 0.0, 0.0], [1.0, 2.0, 3.0], [1.0, 2.0, 3.0]))
+def corner(i):
+    """i-th corner case or None"""
+    if i < len(CORNERS):
+        bump("corner"); c = CORNERS[i]; return list(c[0]), list(c[1]), list(c[2])
+    return None
+
 def gen_error():
     a = np.array([[rng.gauss(0, 1) for _ in range(5)] for _ in range(5)]) * np.array([0.05, 0.002, 0.01, 0.1, 0.005])[:, None]
     kind = rng.choice(["full", "full", "rank1", "zero", "diag"])
@@ -117,8 +132,8 @@ def do_validate():
 def do_c06():
     global n_eval
     n = 500 if tier == "quick" else 5000
-    for i in range(n):
-        par, p0, p1 = gen_helix(), gen_pivot(), gen_pivot()
+    for i in range(n + len(CORNERS)):
+        par, p0, p1 = corner(i) or (gen_helix(), gen_pivot(), gen_pivot())
         c = centre(par, p0)
         if math.hypot(c[0] - p1[0], c[1] - p1[1]) < 1e-3: continue
         fe = rng.choice(["obj", "rec", "arr"])
@@ -187,11 +202,12 @@ def move(fe, par, piv, new, err=None):
 def do_c11():
     global n_eval
     n = 400 if tier == "quick" else 4000
-    for i in range(n):
-        par, p0 = gen_helix(), gen_pivot()
+    for i in range(n + len(CORNERS)):
+        cc = corner(i)
+        par, p0 = (cc[0], cc[1]) if cc else (gen_helix(), gen_pivot())
         fe = rng.choice(["obj", "rec", "arr"]); q = "pos" if par[2] > 0 else "neg"
         E = gen_error() if rng.random() < 0.5 else None
-        seq = [gen_pivot() for _ in range(rng.randrange(1, 5))]
+        seq = [cc[2]] if cc else [gen_pivot() for _ in range(rng.randrange(1, 5))]
         c = centre(par, p0)
         if any(math.hypot(c[0] - p[0], c[1] - p[1]) < 1e-3 for p in seq + [p0]): continue
         sc = scale(par, p0, seq[-1]); pitch = abs(TWO_PI * (ALPHA / par[2]) * par[4])
@@ -201,7 +217,8 @@ def do_c11():
             nxt, npv, ne = move(fe, cur, cp, p, ce); n_eval += 1
             d = wrap(nxt[1] - cur[1]); acc += d
             if abs(abs(d) - math.pi) < 1e-6: half = True
-            if not (0.0 <= nxt[1] <= TWO_PI):
+            # fl(2*pi) itself is below the real number 2*pi, but a correct modulo never returns it from an exact 0 / 2*pi angle
+            if not (0.0 <= nxt[1] < TWO_PI) and not (nxt[1] == TWO_PI and not cc):
                 report(f"C11:phi0-out-of-range:{fe}", f"phi0 = {nxt[1]!r}", {"par": cur, "pivot": cp, "new_pivot": p})
             if max(abs(a - b) for a, b in zip(npv, p)) > 0:
                 report(f"C11:pivot-not-reported:{fe}", "reported pivot differs from the requested one", {"par": cur, "pivot": cp, "new_pivot": p, "got": npv})
@@ -253,6 +270,18 @@ def do_c13():
                 n_eval += 1
                 bad = abs(wrap(g - w)) > 1e-9 if nm == "momentum.phi" else abs(g - w) > 1e-9 * (1 + abs(w))
                 if bad: report(f"C13:formula:{nm}:{nz}:{fe}", f"{nm} = {g!r}, documented formula gives {w!r}", {"par": par, "pivot": p0})
+        # integer-typed parameter columns with a fractional scalar pivot (tuple and vector object)
+        if i % 5 == 0:
+            ipar = [float(rng.randrange(-3, 4)), float(rng.randrange(0, 6)), float(rng.choice([-2, -1, 1, 2])), float(rng.randrange(-4, 5)), float(rng.randrange(-2, 3))]
+            fp = [rng.uniform(-3, 3) + 0.5, rng.uniform(-3, 3) + 0.25, rng.uniform(-3, 3) + 0.75]
+            for pv_kind, pv in (("tuple", tuple(fp)), ("vector", vector.obj(x=fp[0], y=fp[1], z=fp[2]))):
+                bump(f"intcols:{pv_kind}")
+                hi = p3.helix_awk(**{c: ak.Array(np.array([ipar[k], ipar[k]], dtype=np.int64)) for k, c in enumerate(["dr", "phi0", "kappa", "dz", "tanl"])}, pivot=pv)
+                ho = obj(ipar, fp); n_eval += 1
+                got = (float(hi.position.x[0]), float(hi.position.y[0]), float(hi.position.z[0]), float(hi.pivot.x[0]), float(hi.pivot.y[0]), float(hi.pivot.z[0]))
+                want = (ho.position.x, ho.position.y, ho.position.z, fp[0], fp[1], fp[2])
+                if any(abs(g - w) > 1e-9 * (1 + abs(w)) for g, w in zip(got, want)):
+                    report(f"C13:container-forms-differ:int-columns:{pv_kind}-pivot", f"helix_awk with integer-typed columns and pivot {fp}: position/pivot {got} vs object {want}", {"par": ipar, "pivot": fp})
         # three ways of passing parameters
         h1 = p3.helix_obj(dr, phi0, kappa, dz, tanl, pivot=tuple(p0)); h2 = p3.helix_obj(dr=dr, phi0=phi0, kappa=kappa, dz=dz, tanl=tanl, pivot=tuple(p0))
         h3 = p3.helix_obj(params=(dr, phi0, kappa, dz, tanl), pivot=vector.obj(x=p0[0], y=p0[1], z=p0[2])); n_eval += 3
@@ -394,6 +423,15 @@ def do_c07():
                                 report(f"C07:array-differs-from-object:change_pivot:view-{view}-{vname}", f"track {j} in a {view} view", {"tracks": P, "pivot": p0, "new_pivot": p1}); break
                 except Exception as e:
                     report(f"C07:raises:view-{vname}:{type(e).__name__}", f"{vname} helix array view raised {type(e).__name__}: {str(e)[:200]}", {"tracks": P, "pivot": p0, "new_pivot": p1, "nesting": vname})
+        # exact-boundary corner cases (turning angle exactly +-pi, atan2 exactly 0 / pi): array vs object must agree bit for bit
+        if i * 4 < len(CORNERS):
+            cs = CORNERS[i * 4:(i + 1) * 4]
+            for cpar, cp0, cp1 in cs:
+                bump("corner")
+                ho = obj(cpar, cp0).change_pivot(*cp1); ha1 = awk([cpar, P[0]], [cp0, cp0]).change_pivot(*cp1); n_eval += 1
+                got = [float(ha1[f][0]) for f in fields]; want = pars(ho)
+                if any(abs(g - w) > 1e-9 * scale(cpar, cp0, cp1) * (1 + abs(cpar[4])) for g, w in zip(got, want)):
+                    report("C07:array-differs-from-object:change_pivot:boundary", f"boundary case (exact 0 / pi angles): array {got} object {want}", {"par": cpar, "pivot": cp0, "new_pivot": cp1})
         # permutation equivariance on the flat layout
         perm = list(range(m)); rng.shuffle(perm)
         a1 = awk(P, [p0] * m).change_pivot(*p1); a2 = awk([P[k] for k in perm], [p0] * m).change_pivot(*p1); n_eval += 1
